@@ -201,9 +201,11 @@ def check_write(ctx: Ctx) -> None:
                "every path to the write site must pass through the call to reformat_text (format in memory first)",
                where(rf, c), [f"{x.lineno}: {x.text()}" for x in (p or [])])
         # W3 target: the input path is only a destination under `inplace`
-        guards = all_guards(prog, rf, n)
+        from .common import expand_flag_edges
+
+        guards = expand_flag_edges(flow, set(all_guards(prog, rf, n)))  # (a mode variable set under `if inplace:` carries that test)
         gl = []
-        for b, lab in guards:
+        for b, lab in sorted(guards, key=lambda x: x[0].id):
             if b.kind == "test":
                 gl.append((origins(prog, rf, b.ast, b), lab, b))
         inplace_T = any(o == frozenset({("param", "inplace")}) and lab == "T" for o, lab, _ in gl)
@@ -251,7 +253,9 @@ def check_write(ctx: Ctx) -> None:
     # stdout sink only when not in place
     for n, c in flow.all_calls():
         if fs_effect(prog, rf, c) == "stdout":
-            gl = [(origins(prog, rf, b.ast, b), lab) for b, lab in all_guards(prog, rf, n) if b.kind == "test"]
+            from .common import expand_flag_edges
+
+            gl = [(origins(prog, rf, b.ast, b), lab) for b, lab in expand_flag_edges(flow, set(all_guards(prog, rf, n))) if b.kind == "test"]
             ok = any(o == frozenset({("param", "inplace")}) and lab == "F" for o, lab in gl)
             ctx.ob("R-WRITE-W3", f"{rf.qual} :: {norm(c.func)}", ok, "stdout is written only on the not-in-place branch", where(rf, c))
     # W2b: the input is read before formatting, and reading happens before any write
